@@ -386,6 +386,24 @@ def _check_pairs(cell, case, ctx):
             _fail(ctx, cell, "deltaphi", "deltaphi in [-pi,pi]", f"deltaphi={x!r} for a={cell['sa']}{opcheck.fmt(ra[i])} "
                   f"b={cell['sb']}{opcheck.fmt(rb[i])} [{be}]")
             return
+    # the ranges hold for vectors that come out of an operation as well (the sum or difference of two vectors, a negated one):
+    # phi of a result is in [-pi, pi], not merely right modulo 2 pi
+    for rname, rf in (("(a+b).phi", lambda v, w: v.add(w).phi), ("(a-b).phi", lambda v, w: v.subtract(w).phi),
+                      ("(-1.5 a).phi", lambda v, w: v.scale(-1.5).phi)) + (
+                          (("(a+b).theta", lambda v, w: v.add(w).theta), ("(-1.5 a).theta", lambda v, w: v.scale(-1.5).theta)) if d >= 3 else ()):
+        vals = run(rname, rf)
+        if vals is None:
+            return
+        lo = -PI if rname.endswith("phi") else 0
+        for i, x in enumerate(vals):
+            ctx.evaluation()
+            x = _num(x)
+            if x is None or not notnan(x):
+                continue
+            if not (lo - slack <= x <= PI + slack):
+                _fail(ctx, cell, rname.split(".")[-1], "range of a result", f"{rname}={x!r} for a={cell['sa']}{opcheck.fmt(ra[i])} "
+                      f"b={cell['sb']}{opcheck.fmt(rb[i])} [{be}]")
+                return
     nz = lambda e: (R.mag2(e) if d >= 3 else R.rho2(e)) > 0  # noqa: E731
     if d >= 3:
         vals = run("deltaangle", lambda v, w: v.deltaangle(w))
